@@ -457,6 +457,13 @@ def verify_group(ctx, g: Group):
                     'class': c, 'file': sl.get('file', ''), 'line': sl.get('line', ''), 'function': sl.get('function', '')})
     g.result.update({'engine': engine, 'seconds': round(dt, 2), 'log': [(e, s, round(t, 2)) for e, s, t in log],
                      'obligations': obl, 'cbmc': ' '.join(cbmc_cmd(g, binary, engine))})
+    # a call of a function that has no body in the verified text (dfcc: "undefined function should be unreachable") says that the code now
+    # calls something the extraction does not cover -- e.g. a new file-local helper: the verified text is incomplete, nothing is known
+    # about the property (exit 2), whatever else fails
+    nobody = [o for o in obl if o['status'] == 'FAILURE' and 'undefined function should be unreachable' in o['description']]
+    if nobody:
+        raise Undecided('%s: the code calls %s, which is not part of the extracted text (no body, no contract): the verified text does not cover '
+                        'this version of the function' % (g.name, ', '.join(sorted({o['name'].split('.')[0] for o in nobody}))))
     has_primary_failure = any(o['status'] == 'FAILURE' and o['class'] == 'primary' for o in obl)
     if (not reach_seen or not reach_failed) and not has_primary_failure:
         # (when a primary obligation is refuted the run is not vacuous even if the end of the harness became unreachable,
